@@ -54,6 +54,7 @@ type loopInfo struct {
 	headSt  *State // state right after havoc (for unmodified detection)
 	entrySt *State
 	oldSt   *State
+	dirty   map[string]bool
 }
 
 func (fr *Frame) pos(p token.Pos) token.Position {
@@ -557,9 +558,11 @@ func (fr *Frame) storeLoc(l *Loc, v Term) {
 	}
 	switch l.kind {
 	case "field":
+		fr.markDirty(l.heap, l.idx)
 		h := vc.heap(fr.st, l.heap, l.hsort)
 		vc.setHeap(fr.st, l.heap, l.hsort, store(h, l.idx, v))
 	case "elem":
+		fr.markDirty(l.heap, l.idx)
 		h := vc.heap(fr.st, l.heap, l.hsort)
 		vc.setHeap(fr.st, l.heap, l.hsort, store(h, l.idx, store(sel(h, l.idx), l.idx2, v)))
 	case "global":
@@ -829,7 +832,14 @@ func (fr *Frame) enterLoop(li *loopInfo, ins []edgeIn) {
 			continue // lock state is loop-invariant by the lock.balance@loop obligation at every back edge
 		}
 		vc.initHeap(n, vc.known[n])
-		vc.havocHeap(fr.st, n)
+		entryTerm := vc.heap(fr.st, n, vc.known[n])
+		if dirtyPrev := vc.loopUnmod[fr.loopKey(li)+"#dirty"]; dirtyPrev != nil && !dirtyPrev[n] && !strings.HasPrefix(n, "$") && !strings.HasPrefix(n, "G|") && !strings.HasPrefix(n, "L|") && strings.HasPrefix(vc.known[n], "(Array Int ") {
+			// only objects allocated inside the loop body (or by callees) are written through this heap:
+			// every object that existed when the loop was entered keeps its value
+			vc.frameHeap(fr.st, n, entryTerm, vc.heap(li.oldSt, "$alloc", SInt), nil)
+		} else {
+			vc.havocHeap(fr.st, n)
+		}
 	}
 	{
 		a0 := fr.alloc()
@@ -881,6 +891,10 @@ func (fr *Frame) backEdge(li *loopInfo, from *ssa.BasicBlock, cond Term) {
 			um[n] = true
 		}
 	}
+	if li.dirty == nil {
+		li.dirty = map[string]bool{}
+	}
+	vc.loopUnmodNext[key+"#dirty"] = li.dirty
 	if prev, seen := vc.loopUnmodNext[key]; !seen {
 		vc.loopUnmodNext[key] = um
 	} else {
